@@ -58,7 +58,7 @@ def one(d, props, skip_tests):
         det = {}
         for p in props:
             cenv = dict(os.environ, VERIF_REPO=wt, VERIF_EVIDENCE_DIR=os.path.join(tmp, "ev"))
-            rcc, outc = run([os.path.join(VERIF, "check"), p, "--no-cache"], cwd=VERIF, env=cenv, timeout=1500)
+            rcc, outc = run([os.path.join(VERIF, "check"), p], cwd=VERIF, env=cenv, timeout=1500)
             roles = [l.strip() for l in outc.splitlines() if l.startswith("  rule=")]
             errs = [l.strip()[:200] for l in outc.splitlines() if l.startswith("ANALYSIS-ERROR")]
             det[p] = {"exit": rcc, "violations": roles[:6], "errors": errs[:3]}
